@@ -374,6 +374,18 @@ func runC17(seed int64, tier string, out string) {
 					pairs = append(pairs, [3]string{"constant-argument", fmt.Sprintf("SELECT t.c1, %s(%s, 1, %s) OVER (%s) FROM t", lag, v.sql, wc.sql, po),
 						fmt.Sprintf("SELECT t.c1, %s(%s, 1, NULL) OVER (%s) FROM t", lag, v.sql, po)})
 				}
+				if k%2 == 0 && len(sortable) > 0 {
+					// several analytic functions in one select list that share their ORDER BY (with ties): each must
+					// give what it gives alone (the single-function forms are compared with the model above)
+					rankFns := []string{"RANK()", "DENSE_RANK()", "CUME_DIST()", "PERCENT_RANK()", "COUNT(*)"}
+					oc := cols[sortable[r.Intn(len(sortable))]]
+					w := strings.TrimSpace(strings.Split(strings.Split(over, " ORDER BY")[0], " ROWS ")[0] + " ORDER BY " + oc.sql + []string{"", " DESC"}[r.Intn(2)])
+					f1, f2 := rankFns[r.Intn(len(rankFns))], rankFns[r.Intn(4)]
+					for pos, fn := range []string{f1, f2} {
+						pairs = append(pairs, [3]string{"several-analytic-functions", fmt.Sprintf("SELECT t.c1, z.a%d FROM (SELECT t.c1 AS id, %s OVER (%s) AS a0, %s OVER (%s) AS a1 FROM t) z JOIN t ON t.c1 = z.id", pos, f1, w, f2, w),
+							fmt.Sprintf("SELECT t.c1, %s OVER (%s) FROM t", fn, w)})
+					}
+				}
 				for _, pq := range pairs {
 					res := [2]map[string]string{}
 					var errs [2]string
